@@ -136,6 +136,13 @@ pub fn stub_offset_from_local(_l: &Local, local: &NaiveDateTime) -> chrono::Mapp
     }
 }
 
+/// E9: the random delay is outside the claim (max_random_delay == 0 in every harness); the
+/// thread-local RNG cannot be compiled by Kani, so reaching it is cut.
+#[cfg(kani)]
+pub fn stub_thread_rng() -> rand::rngs::ThreadRng {
+    crate::sym::cut()
+}
+
 #[cfg(kani)]
 pub fn stub_utc_now() -> DateTime<Utc> {
     let (s, n) = unsafe { NOW };
@@ -238,8 +245,10 @@ pub fn body_next(z: Zone, u: Unit, modulate: bool, nsel: i64, window: Option<(i6
         }
         assert!(next_utc + off_now == exp, "C16: next roll falls on the unit boundary in local time");
     }
-    cover!(no_change && modulate && n > 1, "modulated multiplier, no offset change in between");
-    cover!(!no_change, "an offset change lies between now and the next roll");
+    let w1 = no_change && (!modulate || n > 1 || nsel == 1);
+    let w2 = if z.t1 != z.t2 { !no_change } else { next_utc - now == n * unit_secs(u) };
+    cover!(w1, "boundary checked without an offset change in between (multiplier > 1 when modulated)");
+    cover!(w2, "an offset change lies between the unit start and the next roll (DST zones) / now sits exactly on a boundary (fixed-offset zones)");
     if witness {
         assert!(false, "WITNESS");
     }
@@ -306,6 +315,7 @@ macro_rules! time_common {
                 #[cfg_attr(kani, kani::stub(<chrono::Local as chrono::TimeZone>::offset_from_local_datetime, crate::c16_time::stub_offset_from_local))]
                 #[cfg_attr(kani, kani::stub(chrono::Local::now, crate::c16_time::stub_local_now))]
                 #[cfg_attr(kani, kani::stub(chrono::Utc::now, crate::c16_time::stub_utc_now))]
+                #[cfg_attr(kani, kani::stub(rand::thread_rng, crate::c16_time::stub_thread_rng))]
             }
             $($rest)*
         }
